@@ -228,7 +228,7 @@ def stopC (t : Tok) (R : List Char) : Prop :=
   | .kw _ => ∀ c, R.head? = some c → isIdPart c = false
   | .num _ _ => numStop R = true ∧ (plainInt t = true → ∀ c, R.head? = some c → c ≠ '.')
   | .str _ => True
-  | .p s => ∀ c, R.head? = some c → c ∉ ext s.toList ∧ (s.toList = ['.'] → c.isDigit = false)
+  | .p s => ∀ c, R.head? = some c → c ∉ ext s.toList ∧ (s.toList = ['.'] ∨ s.toList = ['?', '.'] → c.isDigit = false)
 
 theorem txt_ne_nil (t : Tok) (ht : tokOk t = true) : txt t ≠ [] := by
   cases t with
@@ -329,8 +329,8 @@ theorem scan_tok (g tc : Bool) (t : Tok) (R : List Char) (ht : tokOk t = true) (
     simp only [tokOk, List.contains_iff_mem] at ht
     have hsub := fragPuncts_sub _ ht
     have hfirst := fragPuncts_first _ ht
-    have hstop : ∀ c, R.head? = some c → c ∉ ext s.toList ∧ (s.toList = ['.'] → c.isDigit = false) := hstop
-    have hscan := scanPunct_ext s.toList hsub.1 hsub.2 R (fun c hc => (hstop c hc).1)
+    have hstop : ∀ c, R.head? = some c → c ∉ ext s.toList ∧ (s.toList = ['.'] ∨ s.toList = ['?', '.'] → c.isDigit = false) := hstop
+    have hscan := scanPunct_ext s.toList hsub R (fun e c hc => (hstop c hc).2 (Or.inr e)) (fun c hc => (hstop c hc).1)
     simp only [txt, tokText, kind] at hg hb ⊢
     cases hp : s.toList with
     | nil => rw [hp] at hfirst; simp [punctFirstOk] at hfirst
@@ -349,7 +349,7 @@ theorem scan_tok (g tc : Bool) (t : Tok) (R : List Char) (ht : tokOk t = true) (
           cases R with
           | nil => simp
           | cons d R' =>
-            have := (hstop d rfl).2 (by rw [hc])
+            have := (hstop d rfl).2 (Or.inl (by rw [hc]))
             simp [this]
         · simp [hc]
       have hbr : (c == '}' && tc) = false := by
@@ -544,7 +544,8 @@ def lastIdent (t : Tok) : Bool :=
     other, or the writer's rules put a space between them (`typeof x`, `a in b`, `+ +`, `- --`, `/ /`).
     Pairs excluded here never occur in the token stream of a program: two words (`a b`, `1 a`, `true x`), a plain
     decimal integer directly before a dot, a punctuator followed by a character that extends it to another
-    punctuator (`<` `<`, `=` `=`, `&` `&`, `+` `=`), `/` before `*`, `.` before a digit. -/
+    punctuator (`<` `<`, `=` `=`, `&` `&`, `+` `=`), `/` before `*`, `.` before a digit, `?.` before a digit
+    (`a?.5:1` is `a ? .5 : 1`). -/
 def adjOk (a b : Tok) : Bool :=
   (match a with
    | .str _ => true
@@ -553,7 +554,7 @@ def adjOk (a b : Tok) : Bool :=
       | none => true
       | some c =>
         (!(ext s.toList).contains c || ((s == "+" || s == "-" || s == "/") && s.toList.head? == some c))
-          && (s != "/" || c != '*') && (s.toList != ['.'] || !c.isDigit))
+          && (s != "/" || c != '*') && ((s.toList != ['.'] && s.toList != ['?', '.']) || !c.isDigit))
    | .kw k => kwNeedsSpace k || !startsIdPart b || (isInOf b && lastIdent a)
    | _ => !startsIdPart b || (isInOf b && lastIdent a))
   && (!plainInt a || firstC b != some '.')
@@ -833,7 +834,9 @@ theorem pair_stop (w : W) (a b : Tok) (more : List Tok) (ha : tokOk a = true) (h
             rw [this] at hsp; exact absurd hsp (by simp)
         · intro hdd
           rcases hdot with hdot | hdot
-          · exact absurd hdd hdot
+          · rcases hdd with hdd | hdd
+            · exact absurd hdd hdot.1
+            · exact absurd hdd hdot.2
           · exact hdot
   · exact stopC_space a _ (by simp only [render]; exact seps_head _ _ hs _)
 
